@@ -231,6 +231,8 @@ theorem Popped.mono {s s' : St U π} (h : Stable s s') {nt : UNT U} {x : Prog} (
 structure NTInv (E : Env U π) (s : St U π) (nt : UNT U) : Prop where
   init : s.initS.contains nt = true
   chain : ChainL none (s.succOf nt)
+  /-- `succ[nt]` is a dict -/
+  keys_nodup : (AList.keys (s.succOf nt)).Nodup
   /-- the first pop is `max_priority[nt]` -/
   first : ∃ m, AList.lookup nt s.maxNT = some m ∧
     (AList.lookup none (s.succOf nt) = some m ∨ (s.succOf nt = [] ∧ ∃ pr, (s.heapOf nt).head? = some (pr, m)))
@@ -284,7 +286,7 @@ def Below (E : Env U π) (rank : UNT U → Nat) (r : Nat) (s : St U π) : Prop :
 
 theorem NTInv.transfer {E : Env U π} {s s' : St U π} {nt : UNT U} (h : NTInv E s nt) (hs : Same s s' nt)
     (hst : Stable s s') : NTInv E s' nt := by
-  refine ⟨by rw [hs.init]; exact h.init, by rw [hs.succ]; exact h.chain, ?_, ?_, ?_, ?_⟩
+  refine ⟨by rw [hs.init]; exact h.init, by rw [hs.succ]; exact h.chain, by rw [hs.succ]; exact h.keys_nodup, ?_, ?_, ?_, ?_⟩
   · obtain ⟨m, h1, h2⟩ := h.first
     refine ⟨m, by rw [hs.maxNT]; exact h1, ?_⟩
     rw [hs.succ, hs.heap]; exact h2
